@@ -106,7 +106,11 @@ def execute(sc):
         payload = bytes.fromhex(item["data"])
         acc = acceptors(payload)
         states.add((last, tuple(sorted(acc))))
-        before = d1.previous_success_decoder
+        try:
+            before = d1.previous_success_decoder
+        except Exception as ex:  # noqa: BLE001
+            add("M4", f"previous_success_decoder-raised {type(ex).__name__}", f"step {step}: accessor raised {ex!r}")
+            break
         try:
             r1 = d1.decode_message_payload(payload)
         except Exception as ex:  # noqa: BLE001
@@ -114,7 +118,11 @@ def execute(sc):
                 add("M0", f"exception-although-accepted {type(ex).__name__}", f"step {step}: decode_message_payload raised {ex!r} although {sorted(acc)} accept the payload (remembered {before})")
             void = True
             break
-        name = d1.previous_success_decoder
+        try:
+            name = d1.previous_success_decoder
+        except Exception as ex:  # noqa: BLE001
+            add("M4", f"previous_success_decoder-raised {type(ex).__name__}", f"step {step}: accessor raised {ex!r} after a decode")
+            break
         log.append((step, sorted(acc), None if r1 is None else name))
         if not acc:
             bump("nobody_accepts_steps")
@@ -156,14 +164,19 @@ def execute(sc):
                 void = True
                 break
             bump(f"lockstep_{kind}")
-            if r2 != r1 or d2.previous_success_decoder != name:
-                add("M5", f"decode_message-differs {kind}", f"step {step}: decode_message -> {d2.previous_success_decoder if r2 is not None else None}, decode_message_payload -> {name if r1 is not None else None}")
+            try:
+                name2 = d2.previous_success_decoder
+            except Exception as ex:  # noqa: BLE001
+                add("M4", f"previous_success_decoder-raised {type(ex).__name__}", f"step {step}: accessor raised {ex!r} after decode_message")
+                break
+            if r2 != r1 or name2 != name:
+                add("M5", f"decode_message-differs {kind}", f"step {step}: decode_message -> {name2 if r2 is not None else None}, decode_message_payload -> {name if r1 is not None else None}")
         if viol:
             break
     if sc.get("own") and not void and not viol:
         bump("own_decoder_histories")
-        if d1.previous_success_decoder != sc["own"]:
-            add("M6", f"own-decoder-not-used want={sc['own']}", f"history of genuine {sc['own']} messages only, but previous_success_decoder={d1.previous_success_decoder}")
+        if name != sc["own"]:
+            add("M6", f"own-decoder-not-used want={sc['own']}", f"history of genuine {sc['own']} messages only, but previous_success_decoder={name}")
     return {
         "violations": viol,
         "void": void,
